@@ -1,5 +1,7 @@
 """C06 - a valid problem yields a result; an invalid call is rejected up front (DESIGN C06)."""
 import collections
+import contextlib
+import io
 import json
 import os
 import random
@@ -33,6 +35,7 @@ def work_invalid(item, opts):
     out = {"opt": name, "n": 0, "viol": [], "kinds": []}
     spec = universe.make_spec(rng, kind=rng.choice(["continuous", "mixed", "discrete"]))
     cfg, _ = universe.make_config(rng, name, max_cycles=3)
+    vspec = universe.make_spec(rng, kind="continuous")
     calls = []
     try:
         calls.append(("no-configuration", lambda: cls(), spec, {}))
@@ -66,7 +69,6 @@ def work_invalid(item, opts):
             t = tasks.build_task(s, rid)
             hooks.CUR.mon = mon
             try:
-                import contextlib, io
                 with contextlib.redirect_stdout(io.StringIO()):
                     o.optimize(t, **kw)
                 out["viol"].append({"key": {"optimizer": name, "kind": "invalid-call-accepted", "call": kind},
@@ -82,17 +84,37 @@ def work_invalid(item, opts):
                     hooks.CUR.mon = None
                     vmode = rng.choice(["thread", "serial", "process"])
                     rid2 = rid + "-v"
-                    tasks.register_run(rid2, spec)
+                    tasks.register_run(rid2, vspec)
                     try:
-                        st1, r1 = optimize_plain(o, tasks.build_task(spec, rid2), mode=vmode, workers=None)
-                        st2, r2 = optimize_plain(cls(Cfg(**cfg)), tasks.build_task(spec, rid2), mode=vmode, workers=None)
+                        # thread/process runs are not reproducible and individual algorithms have rare input-dependent
+                        # failures of their own: the verdict needs the used instance to fail in every repetition and a
+                        # fresh instance to succeed in every repetition (continuous task, so such failures are rare)
+                        used_fail = []
+                        fresh_ok = 0
+                        inst = o
+                        for rep_ in range(4):
+                            st1, r1 = optimize_plain(inst, tasks.build_task(vspec, rid2), mode=vmode, workers=None)
+                            if st1 != "exc":
+                                break
+                            used_fail.append(r1)
+                            st2, r2 = optimize_plain(cls(Cfg(**cfg)), tasks.build_task(vspec, rid2), mode=vmode, workers=None)
+                            fresh_ok += st2 == "ok"
+                            # repeat the whole sequence on a new instance: rejected call, then the valid one
+                            inst = mk()
+                            try:
+                                with contextlib.redirect_stdout(io.StringIO()):
+                                    inst.optimize(tasks.build_task(s, rid2), **kw)
+                            except Exception:
+                                pass
                     finally:
                         tasks.unregister_run(rid2)
                     out["followups"] = out.get("followups", 0) + 1
-                    if st1 == "exc" and st2 == "ok":
+                    if len(used_fail) == 4 and fresh_ok == 4:
+                        r1 = used_fail[0]
                         out["viol"].append({"key": {"optimizer": name, "kind": "valid-call-fails-after-rejected-call", "call": kind},
                                             "detail": f"after the rejected call ({kind} {kw}) a valid optimize(mode={vmode!r}) on the same instance "
-                                                      f"raised {r1['exc']} in {r1['func']}: {r1['msg'][:120]}; a fresh instance succeeds"})
+                                                      f"raised {r1['exc']} in {r1['func']}: {r1['msg'][:120]} (4 of 4 repetitions); a fresh instance "
+                                                      f"succeeded 4 of 4 times"})
             except Exception as e:
                 out["viol"].append({"key": {"optimizer": name, "kind": "invalid-call-wrong-error", "call": kind},
                                     "detail": f"{kind} {kw}: raised {type(e).__name__}: {e}"[:250]})
@@ -138,7 +160,7 @@ def definition_rejections(rng):
 def check(prop, tier, seed):
     rep = Report(prop, tier, seed)
     n = common.tier_n(tier, 3000, 40000)
-    items = common.choose_items(prop, tier, seed, n, mode_fraction=0.10)
+    items = common.choose_items(prop, tier, seed, n, mode_fraction=0.10, mode_cap=150 if tier == "quick" else 500)
     pairs = common.run_campaign(rep, items)
     counters = collections.Counter()
     opts_seen = set()
